@@ -866,9 +866,9 @@ impl<'a> Gen<'a> {
         match t {
             T::Int(it) => {
                 let v = match self.rng.below(10) {
-                    0..=4 => BigInt::from(self.rng.below(12)),
-                    5 | 6 => self.rng.pick(&it.boundaries()).clone(),
-                    7 => -BigInt::from(self.rng.below(12)),
+                    0..=3 => BigInt::from(self.rng.below(12)),
+                    4 | 5 => self.rng.pick(&it.boundaries()).clone(),
+                    6 | 7 => -BigInt::from(self.rng.below(12)),
                     _ => it.random(self.rng),
                 };
                 V::Int(if it.contains(&v) { v } else { BigInt::from(1) })
@@ -922,6 +922,14 @@ impl<'a> Gen<'a> {
             (T::Arr(it), V::Arr(vs)) => E::ArrNew((**it).clone(), vs.iter().map(|v| self.lit_expr(it, v)).collect()),
             _ => panic!("lit_expr"),
         }
+    }
+
+    /// A literal the optimizer has special cases for: 0, 1, -1, MIN, MAX.
+    fn special_const(&mut self, it: &ITy) -> E {
+        let c = [BigInt::zero(), BigInt::zero(), BigInt::one(), BigInt::from(-1), it.min(), it.max(), BigInt::from(2)];
+        let v = self.rng.pick(&c).clone();
+        let v = if it.contains(&v) { v } else { BigInt::zero() };
+        E::Lit(T::Int(*it), V::Int(v))
     }
 
     fn vars_of<'v>(&self, env: &'v [Var], t: &T) -> Vec<&'v Var> {
@@ -1012,11 +1020,19 @@ impl<'a> Gen<'a> {
         match t {
             T::Int(it) => {
                 let arrs: Vec<&Var> = env.iter().filter(|v| matches!(&v.ty, T::Arr(et) if **et == *t) && !v.moved).collect();
-                match self.rng.below(12) {
-                    0..=5 => {
+                match self.rng.below(13) {
+                    0..=4 => {
                         let ops: &[&'static str] = if it.kind == TyKind::Unsigned { &["+", "-", "*", "/", "%", "&", "|", "^", "+", "-"] } else { &["+", "-", "*", "/", "%", "+", "-"] };
                         let op = *self.rng.pick(ops);
                         E::Bin(op, t.clone(), Box::new(self.expr(t, env, fidx, d)), Box::new(self.expr(t, env, fidx, d)))
+                    }
+                    5 | 12 => {
+                        // An operation with a constant the optimizer special-cases, on either side.
+                        let ops: &[&'static str] = if it.kind == TyKind::Unsigned { &["+", "-", "*", "/", "%", "&", "|", "^"] } else { &["+", "-", "*", "/", "%"] };
+                        let op = *self.rng.pick(ops);
+                        let c = self.special_const(it);
+                        let x = self.expr(t, env, fidx, d);
+                        if self.rng.bool() { E::Bin(op, t.clone(), Box::new(x), Box::new(c)) } else { E::Bin(op, t.clone(), Box::new(c), Box::new(x)) }
                     }
                     6 if it.kind == TyKind::Signed => E::Neg(t.clone(), Box::new(self.expr(t, env, fidx, d))),
                     7 if !arrs.is_empty() => {
@@ -1054,7 +1070,32 @@ impl<'a> Gen<'a> {
                     E::Lit(t.clone(), v)
                 }
             },
-            T::Bool => match self.rng.below(9) {
+            T::Bool => match self.rng.below(13) {
+                9..=12 => {
+                    // A comparison against a constant the optimizer special-cases.
+                    // Prefer the type of an integer variable in scope (signed ones twice as often),
+                    // so that the other side is a run-time value.
+                    let mut in_scope: Vec<(ITy, String)> = vec![];
+                    for v in env.iter().filter(|v| !v.moved && !v.snap) {
+                        if let T::Int(it) = &v.ty {
+                            in_scope.push((*it, v.name.clone()));
+                            if it.kind == TyKind::Signed {
+                                in_scope.push((*it, v.name.clone()));
+                            }
+                        }
+                    }
+                    let (it, x) = if !in_scope.is_empty() && self.rng.chance(3, 4) {
+                        let (it, n) = self.rng.pick(&in_scope).clone();
+                        (it, E::Var(n))
+                    } else {
+                        let it = *self.rng.pick(&int_types());
+                        (it, self.expr(&T::Int(it), env, fidx, d))
+                    };
+                    let st = T::Int(it);
+                    let op = *self.rng.pick(&["==", "!=", "<", "<=", ">", ">="]);
+                    let c = self.special_const(&it);
+                    if self.rng.bool() { E::Bin(op, st, Box::new(x), Box::new(c)) } else { E::Bin(op, st, Box::new(c), Box::new(x)) }
+                }
                 0..=2 => {
                     let st = self.scalar_type();
                     let ops: &[&'static str] = match st {
